@@ -3,6 +3,7 @@ import MidoProofs.Lemmas.Vlq
 import MidoProofs.Spec.SmfEnc
 import MidoProofs.Lemmas.SmfEnc
 import MidoProofs.Props.C07
+import MidoProofs.Lemmas.SmfClip
 /-!
   C08 — file bytes conform to the Standard MIDI File format in both directions.
 -/
@@ -76,16 +77,52 @@ theorem fixEot_last (tr : List TEvent) : ∀ (acc : PyVal) (fixed : List TEvent)
 /-- **Read direction.**  Every standard-conformant encoding of a file — `EncFile`: any legal use
     of running status, variable-length quantities padded at will (delta times, sysex and meta
     lengths), a header chunk of 6 or more bytes — loads to exactly that event list, with clip on
-    or off.  (Single-byte charsets; payloads within the reader's 1 000 000-byte limit, which is
+    or off.  (Any charset, utf-8 included; payloads within the reader's 1 000 000-byte limit, which is
     part of `EncEv`.) -/
-theorem C08_read_any (cs : Charset) (hcs : cs ≠ .utf8) (f : LFile) (bytes : List Nat) (h : EncFile cs f bytes)
+theorem C08_read_any (cs : Charset) (f : LFile) (bytes : List Nat) (h : EncFile cs f bytes)
     (clip : Bool) : readFile cs clip bytes = .ok f :=
-  readFile_enc cs hcs clip f bytes h
+  readFile_enc cs clip f bytes h
 
 /-- on a conformant file `clip=True` and `clip=False` give the same result -/
-theorem C08_clip_same_on_valid (cs : Charset) (hcs : cs ≠ .utf8) (f : LFile) (bytes : List Nat)
+theorem C08_clip_same_on_valid (cs : Charset) (f : LFile) (bytes : List Nat)
     (h : EncFile cs f bytes) : readFile cs true bytes = readFile cs false bytes := by
-  rw [C08_read_any cs hcs f bytes h true, C08_read_any cs hcs f bytes h false]
+  rw [C08_read_any cs f bytes h true, C08_read_any cs f bytes h false]
+
+/-- **clip=True never changes what clip=False accepts** — for every byte string, conformant or not. -/
+theorem C08_clip_keeps_strict (cs : Charset) (bytes : List Nat) (f : LFile) (h : readFile cs false bytes = .ok f) :
+    readFile cs true bytes = .ok f := readFile_strict_clip cs bytes f h
+
+/-- **The only difference.**  If `clip=True` loads a byte string, `clip=False` loads the very same file from it or
+    stops with the error raised for a data byte above 127 (`OSError` in a channel message, `ValueError` in sysex data);
+    it never fails otherwise and never returns a different file. -/
+theorem C08_clip_only_difference (cs : Charset) (bytes : List Nat) (f : LFile) (h : readFile cs true bytes = .ok f) :
+    readFile cs false bytes = .ok f ∨ ∃ e, (e = .OSError ∨ e = .ValueError) ∧ readFile cs false bytes = .error e :=
+  readFile_clip_strict cs bytes f h
+
+/-- **What clipping does to a message**: reading with `clip=True` is reading with `clip=False` after every data byte the
+    message consumes (the peeked running-status byte included) has been replaced by `min(byte, 127)`. -/
+theorem C08_clip_message (st : Nat) (peek bs : List Nat) (L : Nat)
+    (hL : (match specLen st with | some n => n | none => 0) = L) :
+    readChannelish true st peek bs =
+      readChannelish false st (peek.map clipByte) ((bs.take (L - 1 - peek.length)).map clipByte ++ bs.drop (L - 1 - peek.length)) :=
+  readChannelish_clip st peek bs L hL
+
+/-- the same for sysex: identical framing; payload bytes above 127 become 127 with clip, are an error without -/
+theorem C08_clip_sysex (clip : Bool) (bs : List Nat) :
+    readSysex clip bs = (do
+      let (d, r) ← sysexPayload bs
+      if clip then pure (.msg (.sysex (d.map clipByte)), r)
+      else if d.all (· ≤ 127) then pure (.msg (.sysex d), r) else throw .ValueError) :=
+  readSysex_clip_spec clip bs
+
+/-- a file whose note has velocity byte 200: clip gives 127, strict raises; after it a sysex with payload byte 0x90 -/
+def highBytes : List Nat :=
+  [77, 84, 104, 100, 0, 0, 0, 6, 0, 0, 0, 1, 0, 96,
+   77, 84, 114, 107, 0, 0, 0, 14, 0, 0x90, 60, 200, 0, 0xf0, 3, 1, 0x90, 0xf7, 0, 255, 47, 0]
+
+example : readFile .latin1 true highBytes = .ok ⟨0, 96, [[⟨.msg (.chan3 .note_on 0 60 127), 0⟩,
+      ⟨.msg (.sysex [1, 127]), 0⟩, ⟨.metaEv ⟨.end_of_track, []⟩, 0⟩]]⟩ ∧
+    readFile .latin1 false highBytes = .error .OSError := by decide +kernel
 
 /-- **Write direction.**  What `save` writes for a storable file is a member of the encoding
     relation for exactly the in-memory header and `fix_end_of_track` of every track: exact chunk
@@ -117,7 +154,7 @@ theorem C08_write_conforms (cs : Charset) (f : MFile) (hs : StorableFile cs f) (
             obtain ⟨a1, a2, rfl, hsa⟩ := enc16_i16be _ _ ha
             obtain ⟨b1, b2, rfl, hsb⟩ := enc16_i16be _ _ hb
             obtain ⟨c1, c2, rfl, hsc⟩ := enc16_i16be _ _ hc
-            have ht := writeTracks_enc cs hs.charset f.tracks body hs.events hs.chunk hbody
+            have ht := writeTracks_enc cs f.tracks body hs.events hs.chunk hbody
             have := EncFile.mk (cs := cs) ⟨f.type, f.tpb, f.tracks.map normTrack⟩ a1 a2 b1 b2 c1 c2 [] body
               hsa (by simpa using hsb) hsc (by decide) ht
             simpa using this
@@ -126,7 +163,7 @@ theorem C08_write_conforms (cs : Charset) (f : MFile) (hs : StorableFile cs f) (
 theorem C08_roundtrip_via_spec (cs : Charset) (f : MFile) (hs : StorableFile cs f) (bytes : List Nat)
     (hw : writeFile cs f = .ok bytes) (clip : Bool) :
     readFile cs clip bytes = .ok ⟨f.type, f.tpb, f.tracks.map normTrack⟩ :=
-  C08_read_any cs hs.charset _ bytes (C08_write_conforms cs f hs bytes hw) clip
+  C08_read_any cs _ bytes (C08_write_conforms cs f hs bytes hw) clip
 
 /-- the writer's quantities are the minimal spelling and denote the number -/
 theorem C08_writer_vlq (n : Nat) : VlqDenotes (encVlq n) 0 n := denotes_encVlq n
